@@ -21,6 +21,9 @@ type JApi struct {
 func NewJapi(filepath string, oo ...core.Option) (JApi, *jerr.JApiError) {
 	f, err := readPanicFree(filepath)
 	if err != nil {
+		if f == nil { // the file could not be read: locate the error in an empty file of that name
+			f = fs.NewFile(filepath, []byte{})
+		}
 		return JApi{}, jerr.NewJApiError(err.Error(), f, 0)
 	}
 	return NewJApiFromFile(f, oo...)
